@@ -1,6 +1,7 @@
 package main
 
 import (
+	"regexp"
 	"crypto/sha256"
 	"encoding/hex"
 	"encoding/json"
@@ -25,6 +26,8 @@ func main() {
 	switch os.Args[1] {
 	case "check":
 		os.Exit(cmdCheck(os.Args[2:]))
+	case "replay":
+		os.Exit(cmdReplay(os.Args[2:]))
 	case "funcs":
 		p, err := loadProgram(envOr("VERIF_REPO", "/repo"))
 		if err != nil {
@@ -279,7 +282,21 @@ func cmdCheck(args []string) int {
 	expFile := filepath.Join(*verif, "expected", *prop+".txt")
 	if *updateExpected {
 		os.MkdirAll(filepath.Dir(expFile), 0o755)
-		os.WriteFile(expFile, []byte(strings.Join(order, "\n")+"\n"), 0o644)
+		var keys []string
+		seen := map[string]bool{}
+		for _, n := range order {
+			if k, ok := expKey(n); ok && !seen[k] {
+				seen[k] = true
+				keys = append(keys, k)
+			}
+		}
+		os.WriteFile(expFile, []byte(strings.Join(keys, "\n")+"\n"), 0o644)
+	}
+	haveKey := map[string]bool{}
+	for _, n := range order {
+		if k, ok := expKey(n); ok {
+			haveKey[k] = true
+		}
 	}
 	var missing []string
 	expectedSet := map[string]bool{}
@@ -289,9 +306,13 @@ func cmdCheck(args []string) int {
 			if l == "" {
 				continue
 			}
-			expectedSet[l] = true
-			if byName[l] == nil {
-				missing = append(missing, l)
+			k, ok := expKey(l)
+			if !ok {
+				continue
+			}
+			expectedSet[k] = true
+			if !haveKey[k] {
+				missing = append(missing, k)
 			}
 		}
 	}
@@ -310,6 +331,7 @@ func cmdCheck(args []string) int {
 
 	// ---- report
 	nOb, nDis := 0, 0
+	var knownHit []string
 	var violations []string
 	replayDir := filepath.Join(*outdir, "replays", *prop)
 	os.RemoveAll(replayDir)
@@ -342,10 +364,11 @@ func cmdCheck(args []string) int {
 		}
 		if what, isKnown := known[n]; isKnown {
 			fmt.Printf("KNOWN-FINDING: property=%s %s (%s)\n", *prop, what, n)
-			nDis++ // listed finding: not counted as an open failure of this run
+			nOb-- // a listed finding is reported separately, neither proved nor counted as an obligation of the claim
+			knownHit = append(knownHit, n+": "+what)
 			continue
 		}
-		path := writeReplay(replayDir, *prop, r, expectedSet[n], *repo)
+		path := writeReplay(replayDir, *prop, r, expectedKeyIn(expectedSet, n), *repo)
 		suffix := " no-failing-input-found"
 		if replayed := tryReplay(*verif, *repo, *prop, r, path); replayed {
 			suffix = ""
@@ -355,13 +378,21 @@ func cmdCheck(args []string) int {
 	for _, m := range missing {
 		r := &obResult{Name: m, Kind: "prove", Status: "missing", Detail: "obligation expected for this property was not generated (its function, clause or program point disappeared)"}
 		path := writeReplay(replayDir, *prop, r, true, *repo)
-		violations = append(violations, fmt.Sprintf("VIOLATION property=%s replay=%s no-failing-input-found", *prop, path))
+		suffix := " no-failing-input-found"
+		if tryReplay(*verif, *repo, *prop, r, path) {
+			suffix = ""
+		}
+		violations = append(violations, fmt.Sprintf("VIOLATION property=%s replay=%s%s", *prop, path, suffix))
 		nOb++
 	}
 	for _, e := range engineErrs {
 		r := &obResult{Name: "engine:" + sanitizeFile(e), Kind: "prove", Status: "engine-error", Detail: e}
 		path := writeReplay(replayDir, *prop, r, false, *repo)
-		violations = append(violations, fmt.Sprintf("VIOLATION property=%s replay=%s no-failing-input-found", *prop, path))
+		suffix := " no-failing-input-found"
+		if tryReplay(*verif, *repo, *prop, r, path) {
+			suffix = ""
+		}
+		violations = append(violations, fmt.Sprintf("VIOLATION property=%s replay=%s%s", *prop, path, suffix))
 		nOb++
 	}
 	if len(fuc) == 0 || nOb == 0 {
@@ -413,6 +444,7 @@ func cmdCheck(args []string) int {
 			"solver_ms_total":          solverMs,
 			"samples":                  samples,
 			"obligation_names":         order,
+			"known_findings_open":      knownHit,
 		},
 		"assumptions": assumptions,
 		"wall_s":      time.Since(start).Seconds(),
@@ -838,4 +870,40 @@ func reg_allAxioms(r *Registry) []string {
 		out = append(out, e.line)
 	}
 	return out
+}
+
+// expKey maps an obligation name to the key under which the committed
+// expected list records it. Obligations that are named after a contract
+// clause (ensures, requires at a call, call assertion, loop invariant, cover,
+// unwind) are expected by clause, without the ordinal of the program point;
+// obligations that exist only because of the shape of the code (absence of
+// panics at the n-th index expression, frame of the k-th written array) are
+// not expected by name: harmless edits renumber them, and a change that
+// removes a guard shows up as a failing obligation, not as a missing one.
+var siteSuffix = regexp.MustCompile(`(\.[0-9]+)+$`)
+
+func expKey(name string) (string, bool) {
+	i := strings.Index(name, "#")
+	if i < 0 {
+		return name, true
+	}
+	rest := name[i+1:]
+	// inlined callee prefix [..] is kept
+	kind := rest
+	if j := strings.LastIndex(rest, "]"); j >= 0 {
+		kind = rest[j+1:]
+	}
+	switch {
+	case strings.HasPrefix(kind, "panic."), strings.HasPrefix(kind, "frame."), strings.Contains(kind, ".autoframe."):
+		return "", false
+	}
+	if strings.HasPrefix(kind, "pre.") || strings.HasPrefix(kind, "callassert.") {
+		return siteSuffix.ReplaceAllString(name, ""), true
+	}
+	return name, true
+}
+
+func expectedKeyIn(set map[string]bool, name string) bool {
+	k, ok := expKey(name)
+	return ok && set[k]
 }
